@@ -2,6 +2,16 @@
 
 package desync
 
+import "os"
+
 // verifYield marks a scheduling point used by the verification harness. It is
 // a no-op unless built with the 'verif' tag.
 func verifYield(site string) {}
+
+// verifCanClone / verifCloneRange let the verification harness emulate a
+// filesystem with block cloning. Not handled unless built with the 'verif' tag.
+func verifCanClone(dstFile, srcFile string) (bool, bool) { return false, false }
+
+func verifCloneRange(dst, src *os.File, srcOffset, srcLength, dstOffset uint64) (error, bool) {
+	return nil, false
+}
